@@ -121,6 +121,16 @@ class Multiline:
     self
     """
     for of in gfa_line.tagnames:
+      # refuse an inconsistent single-definition tag before anything is merged
+      if of in self.SINGLE_DEFINITION_TAGS and self.get(of) is not None and \
+          not isinstance(self.get(of), gfapy.FieldArray) and \
+          self.field_to_s(of) != gfapy.Field._to_gfa_field(gfa_line.get(of),
+                                                           fieldname=of):
+        raise gfapy.InconsistencyError(
+          "Inconsistent values for header tag {} found\n".format(of)+
+          "Previous definition: {}\n".format(self.get(of))+
+          "Current definition: {}".format(gfa_line.get(of)))
+    for of in gfa_line.tagnames:
       self.add(of, gfa_line.get(of), gfa_line.get_datatype(of))
     return self
 
